@@ -152,6 +152,6 @@ Print Assumptions C27_record_encoding_injective.
 Example C27_codec_nonvacuous :
   let l := [(1, 0); (2, 1); (5, 0); (0, 2)] in
   dec_stored (stored_value l) = Some (map mk_record l) /\
-  length (stored_value l) = 689%nat /\
+  length (stored_value l) = 693%nat /\
   forallb (fun r => Nat.eqb (length (h_parent (fst r))) 32 && Nat.eqb (length (snd r)) 32) (map mk_record l) = true.
 Proof. vm_compute. repeat split; reflexivity. Qed.
